@@ -39,7 +39,7 @@ MANIFEST = dict(
     technique="Lean 4 proof (loop invariant over the literal algorithm, mutual structural induction on the tree) + "
               "differential correspondence check on the tagified tree, render() html, dependency lists and the error case",
 )
-PROP_FILES = ["HtmlVerif/Props/C09.lean"]
+PROP_FILES = ["HtmlVerif/Props/C09.lean", "HtmlVerif/Props/SrcC09.lean"]
 
 
 # ------------------------------------------------------------------ terms
@@ -434,6 +434,7 @@ def run(tier: str) -> int:
     impl = core.impl_many(lines)
     for l, im, nt in zip(lines, impl, nontriv):
         ck.add(l, im, nontrivial=nt, tag=l.split(" ", 1)[0] + (":err" if im.startswith("err") else ""))
+    ck.add_src(['Tag_tagify', 'TagList_tagify'])
     ck.correspond(holds=True)
     doc_oracle(ck, doc_cases)
     return ck.finish(shrink=make_shrinker(ck))
